@@ -5,7 +5,7 @@
 From Coq Require Import List ZArith Bool Sorting.Sorted Sorting.Permutation.
 From GL Require Import Lib.Arr Lib.Keyed Lib.Blocks Model.Dom Model.Scalar Model.Reduce Model.GroupByApi
   Spec.Defs Spec.Exec Proofs.ReduceSeries Proofs.ReduceBlocks Proofs.ReduceWrap Proofs.ReduceSpec Proofs.ApiProofs
-  Proofs.GenTie Gen.ScalarFuncsGen Model.Moments Proofs.ContainerProofs Proofs.MomentsProofs.
+  Proofs.GenTie Proofs.TieMoments Gen.ScalarFuncsGen Model.Moments Proofs.ContainerProofs Proofs.MomentsProofs.
 Import ListNotations.
 Open Scope Z_scope.
 
